@@ -35,6 +35,12 @@ impl TryFrom<IntRangeData> for IntRange {
         if step == 0 {
             return Err("Integer range with zero step");
         }
+        // The end of a range (`start + count`) is computed as u32 whenever the range is used
+        // (iteration, `contains`, formatting). The parser refuses a range whose end does not fit,
+        // but a received message may contain it.
+        if start.checked_add(count).is_none() {
+            return Err("Integer range with end that does not fit into 32 bits");
+        }
         Ok(IntRange { start, count, step })
     }
 }
